@@ -20,6 +20,10 @@ ALGO_GEOMS = [[1, 1], [3, 2], [16, 1], [2, 1], [8, 3], [5, 2]]
 ALGO_INIT_WEIGHTS = [0.25, 0.25, 0.5]
 ALGO_DOMAIN_LR = 0.0625
 ALGO_TRAIN_BS = 4
+# cohorts with a repeated client id: Mime / MimeLite only.  The unchanged agnostic_federated_averaging keeps its
+# per-client domain metrics in a dict keyed by client id, i.e. it already collapses repeated ids on the unchanged tree
+# (cohort semantics, not a statement of C06), so the agnostic probe keeps distinct ids.
+REPEATED_ID_APIS = ('mime-algo', 'mimelite-algo')
 
 
 def tol(S, model):
@@ -42,7 +46,8 @@ class C06(core.Property):
           'plain unpadded batches; algorithm-level probes: real agnostic_federated_averaging (1-2 rounds, with/without '
           'regularizer), mime and mime_lite (1-2 rounds, sgd+momentum or adam as base optimizer) under 2-3 padded-batch '
           'geometries of their statistics pass, domain weights / server gradient recovered from the optimizer state / '
-          'optimizer state / params compared across geometries and with the reference from the unpadded examples); non-trivial = has a padding row or more than one batch AND every wrong variant '
+          'optimizer state / params compared across geometries; Mime/MimeLite cohorts with a repeated client id; sequences of '
+          'regularizer objects of equal weight but different centres / per-parameter weights evaluated in one case and with the reference from the unpadded examples); non-trivial = has a padding row or more than one batch AND every wrong variant '
           '(mask ignored, rows counted instead of sum(mask), regularizer per batch) differs by > 100x tolerance; '
           'distinct by case digest')
   TRUSTED = ['jax.grad linearity (per-example losses/gradients computed by JAX on single unpadded examples are the '
@@ -130,8 +135,28 @@ class C06(core.Property):
     if spec[0] == 'l2c':
       c = {'w': jnp.array(spec[2]['w'], dtype=jnp.float32), 'b': jnp.array(spec[2]['b'], dtype=jnp.float32)}
       return self.regs.l2_regularizer(spec[1], center_params=c)
+    if spec[0] == 'l2pw':
+      tr = lambda t: None if t is None else {'w': jnp.array(t['w'], dtype=jnp.float32), 'b': jnp.array(t['b'], dtype=jnp.float32)}
+      return self.regs.l2_regularizer(spec[1], center_params=tr(spec[2]), params_weights=tr(spec[3]))
+    if spec[0] == 'lam':
+      cf = float(spec[1])
+      return lambda p: cf * (jnp.sum(p['w'] * p['w']) + p['b'] * p['b'])
     coef = jnp.arange(1, dx + 1, dtype=jnp.float32)
     return lambda p: jnp.sum(p['w'] * coef) + p['b'] * p['b'] + 0.5
+
+  @staticmethod
+  def reg_exact(spec, params):
+    """(value, gradient) of an l2 / l2c / l2pw / lam regularizer spec in exact rationals, from its definition"""
+    p = [F(params['b'])] + [F(v) for v in params['w']]
+    flat = lambda t: [F(t['b'])] + [F(v) for v in t['w']]
+    if spec[0] == 'lam':
+      wgt, c, pw = F(spec[1]), [F(0)] * len(p), [F(1)] * len(p)
+    else:
+      wgt = F(spec[1])
+      c = flat(spec[2]) if len(spec) > 2 and spec[2] is not None else [F(0)] * len(p)
+      pw = flat(spec[3]) if len(spec) > 3 and spec[3] is not None else [F(1)] * len(p)
+    rho = wgt * sum(w_ * (a - b) ** 2 for w_, a, b in zip(pw, p, c))
+    return rho, [2 * wgt * w_ * (a - b) for w_, a, b in zip(pw, p, c)]
 
   def reg_values(self, reg, params, d):
     if reg is None:
@@ -246,7 +271,7 @@ class C06(core.Property):
       case['alpha'] = [rng.choice([0.25, 0.5, 1, 2]) for _ in range(NUM_DOMAINS)]
     return case
 
-  def _algo_case(self, rng, tier, api=None, reg='random'):
+  def _algo_case(self, rng, tier, api=None, reg='random', repeat_ids=False):
     api = api or rng.choice(['afa', 'afa', 'mime-algo', 'mimelite-algo'])
     fam = rng.choice(['sq', 'sq', 'lin'])
     dx = 2
@@ -264,10 +289,37 @@ class C06(core.Property):
     if reg == 'random':
       reg = rng.choice([None, ['l2', 0.25], ['l2', 0.25], ['custom']])
     k = 3 if tier == 'thorough' else 2
-    return {'kind': 'algo', 'api': api, 'fam': fam, 'dx': dx, 'params': self._params(rng, dx, fam), 'reg': reg,
+    case = {'kind': 'algo', 'api': api, 'fam': fam, 'dx': dx, 'params': self._params(rng, dx, fam), 'reg': reg,
             'clients': clients, 'geoms': rng.sample(ALGO_GEOMS, k),
             'rounds': rng.choice([1, 2]) if api == 'afa' else rng.choice([1, 1, 2]),
             'opt': None if api == 'afa' else rng.choice(['momentum', 'momentum', 'adam'])}
+    if api in REPEATED_ID_APIS and (repeat_ids or rng.random() < 0.4):
+      # a client id that occurs twice in the cohort (sampling with replacement): every listed entry counts
+      if rng.random() < 0.5 or len(clients) < 2:
+        clients.append([list(e) for e in clients[0]])                 # the same dataset twice, same id
+        case['ids'] = list(range(len(clients) - 1)) + [0]
+      else:
+        case['ids'] = [0] * len(clients)                              # one id, different datasets
+    return case
+
+  def _regseq_case(self, rng):
+    """several regularizer OBJECTS evaluated one after the other in one case: equal weight, different centres /
+    per-parameter weights (the FedProx pattern: l2_regularizer(mu, center_params=...) rebuilt every round), a plain one
+    and a lambda; each judged against its own exact reference."""
+    fam, dx = rng.choice(['sq', 'sq', 'lin']), 2
+    w0 = rng.choice([0.25, 0.5])
+    centre = lambda: {'w': [rng.randrange(-2, 3) for _ in range(dx)], 'b': rng.randrange(-2, 3)}
+    pws = lambda: {'w': [rng.choice([0.5, 1, 2]) for _ in range(dx)], 'b': rng.choice([0.5, 1, 2])}
+    regs = [['l2c', w0, centre()], ['l2c', w0, centre()]]
+    extra = [['l2pw', w0, rng.choice([None, centre()]), pws()], ['l2', w0], ['lam', rng.choice([0.25, 0.75])],
+             ['l2c', w0, centre()]]
+    rng.shuffle(extra)
+    regs += extra[:rng.choice([1, 2])]
+    rng.shuffle(regs)
+    n = rng.choice([0, 1, 2, 3, 5, 7])
+    return {'kind': 'regseq', 'api': 'regseq', 'fam': fam, 'dx': dx, 'params': self._params(rng, dx, fam),
+            'examples': [self._example(rng, dx, fam) for _ in range(n)],
+            'layout': ['padded', rng.choice([1, 2, 3, 4, 8]), rng.choice([1, 2])], 'regs': regs}
 
   def gen_cases(self, rng, tier):
     # the excluded point of the finiteness hypothesis (known finding) is probed on every run
@@ -289,15 +341,20 @@ class C06(core.Property):
             if api == 'domains':
               case['alpha'] = [1, 0.5, 2]
             yield case
-    n = {'quick': 120, 'thorough': 2300}.get(tier, 300)
+    n = {'quick': 110, 'thorough': 2300}.get(tier, 300)
     every = {'quick': 11, 'thorough': 25}.get(tier, 12)
     # the algorithm-level probes come first (one of each with a regularizer), then one every `every` cases
     yield self._algo_case(rng, tier, api='afa', reg=['l2', 0.25])
     yield self._algo_case(rng, tier, api='mime-algo', reg=['l2', 0.25])
     yield self._algo_case(rng, tier, api='mimelite-algo', reg=['l2', 0.25])
+    yield self._algo_case(rng, tier, api='mime-algo', repeat_ids=True)
+    yield self._regseq_case(rng)
     for i in range(n):
       if i % every == every - 1:
         yield self._algo_case(rng, tier)
+        continue
+      if i % 30 == 14:
+        yield self._regseq_case(rng)
         continue
       r = rng.random()
       if r < 0.3:
@@ -308,7 +365,7 @@ class C06(core.Property):
         yield self._dataset_case(rng)
 
   def shrink(self, case):
-    if case.get('reg') is not None:
+    if case['kind'] != 'regseq' and case.get('reg') is not None:
       yield {**case, 'reg': None}
     if case['kind'] == 'batch':
       rows = case['rows']
@@ -321,6 +378,22 @@ class C06(core.Property):
         if not r[-1] and any(v != 0 for v in r[:-1]):
           yield {**case, 'rows': rows[:i] + [[0] * (len(r) - 1) + [False]] + rows[i + 1:]}
       return
+    if case['kind'] == 'regseq':
+      regs = case['regs']
+
+      def still_two(rs):      # two l2 objects of one weight but different configuration must remain
+        l2 = [r for r in rs if r[0] != 'lam']
+        return any(a[1] == b[1] and a != b for i, a in enumerate(l2) for b in l2[i + 1:])
+      for drop in range(len(regs)):
+        rs = regs[:drop] + regs[drop + 1:]
+        if len(rs) >= 2 and still_two(rs):
+          yield {**case, 'regs': rs}
+      ex = case['examples']
+      for drop in range(len(ex)):
+        yield {**case, 'examples': ex[:drop] + ex[drop + 1:]}
+      if case['layout'] != ['padded', 8, 1]:
+        yield {**case, 'layout': ['padded', 8, 1]}
+      return
     if case['kind'] == 'algo':
       clients = case['clients']
       if case['rounds'] > 1:
@@ -330,7 +403,12 @@ class C06(core.Property):
           yield {**case, 'geoms': [g for i, g in enumerate(case['geoms']) if i != drop]}
       if len(clients) > 1:
         for drop in range(len(clients)):
-          yield {**case, 'clients': [c for i, c in enumerate(clients) if i != drop]}
+          c2 = {**case, 'clients': [c for i, c in enumerate(clients) if i != drop]}
+          if case.get('ids'):
+            c2['ids'] = [v for i, v in enumerate(case['ids']) if i != drop]
+          yield c2
+      if case.get('ids'):
+        yield {k_: v for k_, v in case.items() if k_ != 'ids'}
       for ci, c in enumerate(clients):
         if len(c) > 1:
           for drop in range(len(c)):
@@ -427,7 +505,91 @@ class C06(core.Property):
       return self._eval_batch(case, ctx)
     if case['kind'] == 'algo':
       return self._eval_algo(case, ctx)
+    if case['kind'] == 'regseq':
+      return self._eval_regseq(case, ctx)
     return self._eval_dataset(case, ctx)
+
+  # ------------------------------------------------------------------------------------------ regularizer sequence
+
+  def _eval_regseq(self, case, ctx):
+    fam, dx = case['fam'], case['dx']
+    d = dx + 1
+    models = self.models
+    params = self.mk_params(case['params'])
+    pel = self.pel[fam]
+    ex = case['examples']
+    x, y, dom = self._arrays(ex, dx)
+    l_all, g_all = self.per_example(fam, params, x, y)
+    n = len(ex)
+    batches = self._batches(ex, case['layout'], dx, fam)
+    mean_l = sum(fr(v) for v in l_all) / n if n else F(0)
+    S_l = sum(abs(fr(v)) for v in l_all) / n if n else F(0)
+    problems, corr, key = [], [], None
+
+    def fail(k, msg):
+      nonlocal key
+      key = key or f'C06/regseq/{k}'
+      problems.append(msg)
+
+    b0 = batches[0] if batches else None
+    if b0 is not None:
+      real0 = [i for i in range(len(b0['y'])) if b0[self.MK][i]]
+      l0, g0 = self.per_example(fam, params, b0['x'], b0['y'])
+      mean_g0 = [sum(fr(g0[i][k]) for i in real0) / len(real0) for k in range(d)]
+      S_g0 = [sum(abs(fr(g0[i][k])) for i in real0) / len(real0) for k in range(d)]
+    rows_b = [self._model_rows(fam, params, b) for b in batches]
+    lines, meta, rhos = [], [], []
+    for ri, spec in enumerate(case['regs']):
+      reg = self._make_reg(spec, dx)                  # a FRESH object every time (never the harness cache)
+      rho, r = self.reg_exact(spec, case['params'])
+      rhos.append(rho)
+      want = mean_l + rho
+      S = S_l + abs(rho)
+      tag = f'regularizer #{ri} {spec}'
+      try:
+        a = float(models.evaluate_average_loss(params, iter(batches), self.rng, pel, reg))
+        if not abs(a - float(want)) <= tol(S, want):
+          fail('avg-loss', f'evaluate_average_loss with {tag}: got {a}, mean loss {float(mean_l)} + regularizer '
+                           f'{float(rho)} = {float(want)}')
+        ev = models.AverageLossEvaluator(pel, reg)
+        e = float(dict(ev.evaluate_global_params(params, [(b'c0', batches, self.rng)]))[b'c0'])
+        if not abs(e - float(want)) <= tol(S, want):
+          fail('evaluator', f'AverageLossEvaluator with {tag}: got {e}, expected {float(want)}')
+        gg = None
+        if b0 is not None:
+          gg = self.flat(models.grad(pel, reg)(params, b0, self.rng))
+          for k in range(d):
+            wk = mean_g0[k] + r[k]
+            if not abs(gg[k] - float(wk)) <= tol(S_g0[k] + abs(r[k]), wk):
+              fail('grad', f'models.grad with {tag}: coordinate {k} = {gg[k]}, expected {float(wk)}')
+              break
+      except Exception as e_:
+        fail('raised', f'{tag}: {type(e_).__name__}: {str(e_)[:140]}')
+        continue
+      lines.append(line('c06.avgloss', [[True, rb] for rb in rows_b], rho))
+      meta.append(('avg', ri, a, S))
+      if b0 is not None:
+        lines.append(line('c06.grad', d, True, rows_b[0], r))
+        meta.append(('grad', ri, gg, None))
+    if lines:
+      ans = ctx.drv.ask(lines)
+      for (kind, ri, got, S), a in zip(meta, ans):
+        if kind == 'avg':
+          if F(a) != mean_l + rhos[ri]:
+            corr.append(f'regularizer #{ri}: model average loss {a} differs from the exact statement {mean_l + rhos[ri]}')
+          elif not abs(got - float(a)) <= tol(S, a):
+            corr.append(f'regularizer #{ri}: implementation average loss {got} vs model {float(F(a))}')
+        else:
+          for k in range(d):
+            if not abs(got[k] - float(a[k])) <= tol(S_g0[k] + abs(float(a[k])), a[k]):
+              corr.append(f'regularizer #{ri}: implementation gradient {got} vs model {[float(v) for v in a]}')
+              break
+    l2 = [(spec, rho) for spec, rho in zip(case['regs'], rhos) if spec[0] != 'lam']
+    nontrivial = any(a[0][1] == b[0][1] and abs(float(a[1] - b[1])) > 100 * tol(S_l + abs(a[1]), a[1])
+                     for i, a in enumerate(l2) for b in l2[i + 1:])
+    tags = ('api=regseq', f'fam={fam}', f'regs={len(case["regs"])}', 'empty' if n == 0 else 'nonempty')
+    return Outcome(oracle_fail='; '.join(problems[:3]) or None, corr_fail='; '.join(corr[:3]) or None, key=key,
+                   nontrivial=nontrivial, tags=tags, detail={'reg_values': [float(v) for v in rhos]})
 
   # ------------------------------------------------------------------------------------------ algorithm-level probes
 
@@ -469,7 +631,8 @@ class C06(core.Property):
     for ex in clients:
       x, y, dom = self._arrays(ex, dx)
       dss.append(self.cds.ClientDataset({'x': x, 'y': y, 'domain_id': dom}))
-    cl = [(b'c%d' % i, ds, jax.random.PRNGKey(i)) for i, ds in enumerate(dss)]
+    ids = case.get('ids') or list(range(len(dss)))
+    cl = [(b'c%d' % ids[i], ds, jax.random.PRNGKey(i)) for i, ds in enumerate(dss)]
     problems, corr, key = [], [], None
 
     def fail(k, msg):
@@ -611,7 +774,8 @@ class C06(core.Property):
     n_ex = sum(len(c) for c in clients)
     multi_batch = any(-(-len(c) // g[0]) > 1 for c in clients for g in case['geoms'])
     tags = (f'api={api}', f'fam={fam}', 'reg' if case['reg'] else 'noreg', f'clients={len(clients)}',
-            f'rounds={case["rounds"]}', f'opt={case.get("opt")}', 'algo-level')
+            f'rounds={case["rounds"]}', f'opt={case.get("opt")}', 'algo-level',
+            'repeated-client-id' if case.get('ids') and len(set(case['ids'])) < len(case['ids']) else 'distinct-client-ids')
     for obs in runs:
       if obs:
         for o in obs:
